@@ -812,3 +812,74 @@ func verdictOf(seen []probeSeen) string {
 	}
 	return "leak"
 }
+
+// ---------------------------------------------------------------------------
+// modulemeta: overloads whose "name/arity" strings sort differently from
+// (name, numeric arity) pairs, and names that are prefixes of each other
+
+var overloadNames = []string{"f", "f_", "fa", "f1", "F", "ff", "g", "g0"}
+
+func overloadDef(name string, arity int) defSpec {
+	d := defSpec{Name: name}
+	for i := 1; i <= arity; i++ {
+		d.Params = append(d.Params, fmt.Sprintf("p%d", i))
+	}
+	return d
+}
+
+// addOverloads appends uncalled definitions to the module files: arities
+// 0..12, often one name at an arity in 2..9 and at one >= 10, in random order.
+// Nothing refers to them, so every program of the tree still compiles.
+func addOverloads(t *rapid.T, c *treeCase) {
+	for fi := range c.Files {
+		f := &c.Files[fi]
+		if f.IsData || rapid.IntRange(0, 3).Draw(t, "overloads") == 0 {
+			continue
+		}
+		var extra []defSpec
+		if rapid.IntRange(0, 2).Draw(t, "digitpair") > 0 {
+			n := rapid.SampledFrom(overloadNames).Draw(t, "oname")
+			extra = append(extra, overloadDef(n, rapid.IntRange(2, 9).Draw(t, "small")), overloadDef(n, rapid.IntRange(10, 12).Draw(t, "wide")))
+		}
+		k := rapid.IntRange(1, 5).Draw(t, "nover")
+		for i := 0; i < k; i++ {
+			extra = append(extra, overloadDef(rapid.SampledFrom(overloadNames).Draw(t, "oname"), rapid.IntRange(0, 12).Draw(t, "oarity")))
+		}
+		// a drawn permutation
+		for i := len(extra) - 1; i > 0; i-- {
+			j := rapid.IntRange(0, i).Draw(t, "perm")
+			extra[i], extra[j] = extra[j], extra[i]
+		}
+		f.Defs = append(f.Defs, extra...)
+	}
+}
+
+// digitClash reports whether a file defines one name at an arity in 2..9 and
+// at an arity >= 10 (string order of "name/arity" differs from numeric order),
+// and whether one defined name is a proper prefix of another.
+func digitClash(f *fileSpec) (bool, bool) {
+	small, wide := map[string]bool{}, map[string]bool{}
+	var names []string
+	for _, d := range f.Defs {
+		a := len(d.Params)
+		if a >= 2 && a <= 9 {
+			small[d.Name] = true
+		}
+		if a >= 10 {
+			wide[d.Name] = true
+		}
+		names = append(names, d.Name)
+	}
+	clash, prefix := false, false
+	for _, n := range names {
+		if small[n] && wide[n] {
+			clash = true
+		}
+		for _, o := range names {
+			if o != n && strings.HasPrefix(o, n) {
+				prefix = true
+			}
+		}
+	}
+	return clash, prefix
+}
